@@ -56,3 +56,114 @@ Example C04_dict_order :
   let el := mk_elist [[1];[1];[1]] [(1,2);(2,1);(1,2)] [10;11;12] [0;1;2] in
   n_edges (to_network el) = [((1,2), Some (11,1))].
 Proof. vm_compute. reflexivity. Qed.
+
+(* ================= growth: audit finding F5 (proofs in Proofs/ConvGenP.v) ================= *)
+From GV Require Import Proofs.ConvGenP.
+
+(* (a) what the round-trip judge means: it accepts el' exactly when el' has the same joint degree
+   sequence, the same number of rows and the same SET of normalised annotated rows as el *)
+Theorem C04_roundtrip_checker_iff :
+  forall el el', check_roundtrip el el' = true <->
+    (el_jds el = el_jds el' /\ length (nrows el) = length (nrows el') /\
+     (forall r, In r (nrows el) <-> In r (nrows el'))).
+Proof. exact check_roundtrip_iff. Qed.
+Print Assumptions C04_roundtrip_checker_iff.
+
+(* ... for a simple list: exactly when the normalised annotated rows are a permutation of each other *)
+Theorem C04_roundtrip_checker_simple_iff :
+  forall el el', simple_el el = true ->
+    (check_roundtrip el el' = true <-> el_jds el = el_jds el' /\ Permutation (nrows el) (nrows el')).
+Proof. exact check_roundtrip_simple_iff. Qed.
+Print Assumptions C04_roundtrip_checker_simple_iff.
+
+(* ... and it accepts whatever the modelled back conversion of a simple list returns *)
+Theorem C04_roundtrip_simple_checked :
+  forall el el', simple_el el = true -> to_edgelist (to_network el) = Some el' -> check_roundtrip el el' = true.
+Proof. exact roundtrip_simple_checked. Qed.
+Print Assumptions C04_roundtrip_simple_checked.
+
+(* (b) EVERY list with parallel columns and vertices below N (repeated / reversed pairs and self-loops
+   allowed): the back conversion succeeds, returns the same joint degree sequence and exactly one row
+   per unordered pair of the list (normalised orientation, first-occurrence order), carrying the
+   attribute the network holds for the pair *)
+Theorem C04_roundtrip_general :
+  forall el, wf_el el = true ->
+  exists el', to_edgelist (to_network el) = Some el' /\
+    el_jds el' = el_jds el /\
+    el_edges el' = nodup_edges (map norm (el_edges el)) /\
+    length (el_names el') = length (el_edges el') /\
+    length (el_ids el') = length (el_edges el') /\
+    (forall e a, In (e, a) (rows el') <-> (In e (el_edges el') /\ final_attr el e = Some a)).
+Proof. exact roundtrip_general. Qed.
+Print Assumptions C04_roundtrip_general.
+
+(* the same without reference to model functions other than final_attr: the returned pairs are
+   duplicate-free, are exactly the normalised pairs of the list, every returned row is one of the
+   list's (normalised) rows, and a pair occurring once keeps precisely that row's name and id *)
+Theorem C04_roundtrip_general_spec :
+  forall el, wf_el el = true ->
+  exists el', to_edgelist (to_network el) = Some el' /\
+    el_jds el' = el_jds el /\
+    length (el_names el') = length (el_edges el') /\
+    length (el_ids el') = length (el_edges el') /\
+    map fst (rows el') = el_edges el' /\
+    NoDup (el_edges el') /\
+    (forall e, In e (el_edges el') <-> (norm e = e /\ exists e0, In e0 (el_edges el) /\ norm e0 = e)) /\
+    (forall e a, In (e, a) (rows el') <-> (In e (el_edges el') /\ final_attr el e = Some a)) /\
+    (forall r, In r (rows el') -> In r (nrows el)) /\
+    (forall e a r, In (e, a) (rows el') -> occurrences el e = [r] -> a = r).
+Proof. exact roundtrip_general_spec. Qed.
+Print Assumptions C04_roundtrip_general_spec.
+
+(* the attribute the network holds for a pair is always that of one of the rows naming the pair *)
+Theorem C04_final_attr_is_a_row :
+  forall el ne a, final_attr el ne = Some a -> In a (occurrences el ne).
+Proof. exact final_attr_in. Qed.
+Print Assumptions C04_final_attr_is_a_row.
+
+Theorem C04_simple_is_wf : forall el, simple_el el = true -> wf_el el = true.
+Proof. exact simple_wf. Qed.
+Print Assumptions C04_simple_is_wf.
+
+(* (c) the error lemma: an edge naming a vertex >= N makes the back conversion raise KeyError
+   (the model's value None, on the wire t_err 1), whatever else the list contains *)
+Theorem C04_back_conversion_error :
+  forall el v, In v (endpoints (el_edges el)) -> length (el_jds el) <= v ->
+    to_edgelist (to_network el) = None.
+Proof. exact back_conversion_error. Qed.
+Print Assumptions C04_back_conversion_error.
+
+Theorem C04_run_error :
+  forall t v, In v (endpoints (el_edges (dec_elist t))) -> length (el_jds (dec_elist t)) <= v ->
+    c04_run t = L [enc_net (to_network (dec_elist t)); t_err 1].
+Proof. exact c04_run_error. Qed.
+Print Assumptions C04_run_error.
+
+(* non-vacuity: the audit's list - a pair given three times in both orientations and a self-loop -
+   is well-formed but not simple; one row per pair comes back, (1,2) with the attribute of row 2 *)
+Example C04_general_nonvacuous :
+  let el := mk_elist [[1];[1];[1]] [(1,2);(2,1);(1,2);(0,0)] [10;11;12;13] [0;1;2;3] in
+  wf_el el = true /\ simple_el el = false /\
+  to_edgelist (to_network el) = Some (mk_elist [[1];[1];[1]] [(1,2);(0,0)] [11;13] [1;3]) /\
+  final_attr el (1,2) = Some (11,1) /\ occurrences el (1,2) = [(10,0);(11,1);(12,2)].
+Proof. vm_compute. repeat split; reflexivity. Qed.
+
+(* the judge rejects a back conversion that lost a row, changed an id, or changed the jds *)
+Example C04_roundtrip_checker_rejects :
+  let el := mk_elist [[1];[1];[2]] [(2,0);(1,2)] [7;8] [0;1] in
+  check_roundtrip el (mk_elist [[1];[1];[2]] [(1,2);(0,2)] [8;7] [1;0]) = true /\
+  check_roundtrip el (mk_elist [[1];[1];[2]] [(0,2)] [7] [0]) = false /\
+  check_roundtrip el (mk_elist [[1];[1];[2]] [(0,2);(1,2)] [7;8] [0;2]) = false /\
+  check_roundtrip el (mk_elist [[1];[2];[1]] [(0,2);(1,2)] [7;8] [0;1]) = false.
+Proof. vm_compute. repeat split; reflexivity. Qed.
+
+(* the error case: vertex 3 with N = 3 *)
+Example C04_error_nonvacuous :
+  let el := mk_elist [[1];[1];[0]] [(0,3)] [5] [0] in
+  In 3 (endpoints (el_edges el)) /\ length (el_jds el) <= 3 /\ to_edgelist (to_network el) = None /\
+  c04_run (L [L [of_nats [1]; of_nats [1]; of_nats [0]]; L [of_pair (0,3)]; of_nats [5]; of_nats [0]])
+    = L [enc_net (to_network el); t_err 1].
+Proof.
+  intros el. split; [vm_compute; right; left; reflexivity|]. split; [vm_compute; apply le_n|].
+  vm_compute. split; reflexivity.
+Qed.
